@@ -61,7 +61,8 @@ type Cfg struct {
 	Entries   []int // allowed entry points (nil = all)
 	// Closer: 0 = the channel stays open; 1 = Close(err) from a user goroutine
 	// once all (early) writers returned; 2 = Close from a handler on the read loop;
-	// 3 = the parent context is cancelled and then Close(err) is called (Bootstrap.Shutdown's order).
+	// 3 = the parent context is cancelled and then Close(err) is called (Bootstrap.Shutdown's order);
+	// 4 = nobody calls Close: the first transport write of the background sender fails once and the failed sender closes the channel.
 	Closer int
 	// Wrap: run on the library's transport wrapper with these {read, write} buffer sizes (nil = mock transport directly).
 	Wrap *[2]int
@@ -203,6 +204,10 @@ func Run(cfg Cfg, rng *rand.Rand, watchdog time.Duration) *History {
 	}
 	rig := mon.NewRig(opts)
 	h.Rig = rig
+	if cfg.Closer == 4 {
+		rig.T.AddFault(mon.Fault{Kind: mon.OpWritev, K: 1, Err: ErrTrialClose})
+		rig.T.AddFault(mon.Fault{Kind: mon.OpWrite, K: 1, Err: ErrTrialClose})
+	}
 	var wg sync.WaitGroup
 	for w := 0; w < cfg.Writers; w++ {
 		wg.Add(1)
@@ -260,6 +265,14 @@ func Run(cfg Cfg, rng *rand.Rand, watchdog time.Duration) *History {
 				defer close(closed)
 				<-rig.T.Closed()
 			}()
+		case 4:
+			go func() {
+				defer close(closed)
+				select {
+				case <-rig.T.Closed():
+				case <-time.After(watchdog):
+				}
+			}()
 		}
 		lwDone := make(chan struct{})
 		go func() { lw.Wait(); <-closed; close(lwDone) }()
@@ -279,6 +292,14 @@ func Run(cfg Cfg, rng *rand.Rand, watchdog time.Duration) *History {
 	// logical quiescence: only the read loop (action #0) may be outstanding
 	// (nothing at all once the channel was closed).
 	h.Quiesced = rig.Ex.WaitOutstanding(outstanding, watchdog)
+	if cfg.Closer == 4 {
+		for _, e := range rig.S.Log() {
+			if e.Name == "cEl" {
+				h.CloseCall = e.Tick // writes that returned before the election had certainly been accepted before the Close
+				break
+			}
+		}
+	}
 	if !h.Quiesced {
 		loops, writes, starts := rig.S.Count("sLoop"), rig.S.Count("tV0"), rig.Ex.Submitted()
 		// a correct sender hands at least one packet to the transport per loop iteration that finds the
@@ -593,12 +614,26 @@ func CheckC06(h *History, recs []WireRec) (viols []Viol, pre int, judged bool) {
 		}
 		return -1
 	}
+	refused := map[[2]int]bool{}
+	for _, o := range h.Ops {
+		if o.Rejected && o.AfterClose == false && (o.Kind == mon.OpWrite || o.Kind == mon.OpWritev) && ci >= 0 {
+			rs, _ := mon.ParseWire(o.Data)
+			for _, r := range rs {
+				if !r.Tiny {
+					refused[[2]int{r.W, r.Seq}] = true
+				}
+			}
+		}
+	}
 	lastOp := -1
 	for w := range h.Writes {
 		for i := range h.Writes[w] {
 			c := &h.Writes[w][i]
 			if !c.OK || c.Size == 0 || c.Ret >= h.CloseCall {
 				continue
+			}
+			if refused[[2]int{c.W, c.Seq}] {
+				continue // was in a batch the transport refused (injected one-shot failure): not this property's subject
 			}
 			pre++
 			r := onWire[[2]int{c.W, c.Seq}]
